@@ -1965,6 +1965,13 @@ meta:
 				}
 
 				len = scan_meta_key(&source[l->start]);
+
+				if (len == 0) {
+					// Not a "key: value" line, but a YAML marker that was indented with
+					// a non-breaking space -- nothing to store
+					break;
+				}
+
 				m = meta_new(source, l->start, len);
 				start = l->start + len + 1;
 
